@@ -166,5 +166,18 @@ func fqnSweep(seed int64) (*fqnOut, error) {
 		c.Again = lookup(c.FQN)
 		out.Cases = append(out.Cases, c)
 	}
+	// ... and a name the package does not declare that is a PREDECLARED identifier (a type, a constant, nil, a builtin function):
+	// `path.error` is not the universe's error -- the object is looked up in the scope of the package, not in its parents
+	for k, n := range types.Universe.Names() {
+		for j, p := range []string{"gopkg.in/yaml.v3", "a.b/c.d/e.f", "noslash.v2", "plainpkg", "k8s.io/api/core/v1"} {
+			if (k+j)%2 == 1 && n != "error" && n != "string" && n != "any" {
+				continue
+			}
+			c := fqnCase{FQN: p + "." + n, Path: p, Name: n, Expect: "error"}
+			c.Got = lookup(c.FQN)
+			c.Again = lookup(c.FQN)
+			out.Cases = append(out.Cases, c)
+		}
+	}
 	return out, nil
 }
